@@ -48,7 +48,7 @@ var fnWhitelist = map[string][]string{
 		"Info.Validate", "Export.Validate", "isContainedIn", "Exports.Validate", "Exports.HasExportContainingSubject", "Mapping.Validate",
 		"CreateValidationResults", "ResponsePermission.Validate", "Permissions.Validate",
 		"OperatorLimits.IsEmpty", "OperatorLimits.Validate", "ExternalAuthorization.Validate",
-		"UserScope.Validate", "SigningKeys.Validate", "Account.Validate", "AccountClaims.Validate", "GenericClaims.Validate", "AuthorizationRequestClaims.Validate", "AuthorizationResponseClaims.Validate", "TimeRange.Validate", "Limits.Validate", "User.Validate", "UserClaims.Validate", "ParseServerVersion", "Operator.validateAccountServerURL", "ValidateOperatorServiceURL", "Operator.validateOperatorServiceURLs", "Operator.Validate", "OperatorClaims.Validate", "OperatorClaims.ExpectedPrefixes", "AccountClaims.ExpectedPrefixes", "UserClaims.ExpectedPrefixes", "ActivationClaims.ExpectedPrefixes", "AuthorizationRequestClaims.ExpectedPrefixes", "AuthorizationResponseClaims.ExpectedPrefixes", "GenericClaims.ExpectedPrefixes", "loadClaims", "Decode", "v1OperatorClaims.migrateV1", "v1UserClaims.migrateV1", "v1ActivationClaims.migrateV1", "SigningKeys.Add", "v1AccountClaims.migrateV1", "UserClaims.Encode", "ActivationClaims.Encode", "OperatorClaims.Encode", "AccountClaims.Encode", "GenericClaims.Encode", "AuthorizationRequestClaims.Encode", "AuthorizationResponseClaims.Encode",
+		"UserScope.Validate", "SigningKeys.Validate", "Account.Validate", "AccountClaims.Validate", "GenericClaims.Validate", "AuthorizationRequestClaims.Validate", "AuthorizationResponseClaims.Validate", "TimeRange.Validate", "Limits.Validate", "User.Validate", "UserClaims.Validate", "ParseServerVersion", "Operator.validateAccountServerURL", "ValidateOperatorServiceURL", "Operator.validateOperatorServiceURLs", "Operator.Validate", "OperatorClaims.Validate", "OperatorClaims.ExpectedPrefixes", "AccountClaims.ExpectedPrefixes", "UserClaims.ExpectedPrefixes", "ActivationClaims.ExpectedPrefixes", "AuthorizationRequestClaims.ExpectedPrefixes", "AuthorizationResponseClaims.ExpectedPrefixes", "GenericClaims.ExpectedPrefixes", "loadClaims", "Decode", "v1OperatorClaims.migrateV1", "v1UserClaims.migrateV1", "v1ActivationClaims.migrateV1", "SigningKeys.Add", "v1AccountClaims.migrateV1", "UserClaims.Encode", "ActivationClaims.Encode", "OperatorClaims.Encode", "AccountClaims.Encode", "GenericClaims.Encode", "AuthorizationRequestClaims.Encode", "AuthorizationResponseClaims.Encode", "OperatorClaims.updateVersion", "AccountClaims.updateVersion", "UserClaims.updateVersion", "ActivationClaims.updateVersion", "AuthorizationRequestClaims.updateVersion", "AuthorizationResponseClaims.updateVersion", "DecodeOperatorClaims", "DecodeAccountClaims", "DecodeUserClaims", "DecodeAuthorizationRequestClaims", "DecodeAuthorizationResponseClaims",
 	},
 	"V1": {
 		"Subject.HasWildCards", "Subject.IsContainedIn", "cleanSubject",
@@ -63,18 +63,19 @@ type unsupported struct{ msg string }
 func unsup(f string, a ...interface{}) { panic(unsupported{fmt.Sprintf(f, a...)}) }
 
 type fnInfo struct {
-	key      string
-	leanName string
-	fd       *ast.FuncDecl
-	params   []*types.Var // receiver first
-	mutated  []bool       // per param: is it written through (pointer receiver / map) -> returned
-	results  []types.Type
-	usesNow  bool
-	usesOpq  bool // calls (transitively) a function that is kept opaque
-	sig      *types.Signature
-	hasRecv  bool
-	retType  string                // Lean type inside Option
-	optPtr   map[types.Object]bool // pointer parameters / receivers compared with nil in the body: Option T
+	key       string
+	leanName  string
+	fd        *ast.FuncDecl
+	params    []*types.Var // receiver first
+	mutated   []bool       // per param: is it written through (pointer receiver / map) -> returned
+	results   []types.Type
+	nilPtrRes []bool // per result: a pointer-to-struct result for which the body returns a literal nil (`Option T`)
+	usesNow   bool
+	usesOpq   bool // calls (transitively) a function that is kept opaque
+	sig       *types.Signature
+	hasRecv   bool
+	retType   string                // Lean type inside Option
+	optPtr    map[types.Object]bool // pointer parameters / receivers compared with nil in the body: Option T
 }
 
 type fnGen struct {
@@ -249,10 +250,10 @@ var foreignOpaque = map[string]string{
 	"nkeys.IsValidPublicServerKey":   "Str → Bool",
 	"nkeys.IsValidPublicCurveKey":    "Str → Bool",
 	"Claims.verify":                  "I_Claims → Str → (List Int) → Bool", // the interface method `verify(payload, sig)`: the signature check under the claim's own issuer
-	"url.Parse":                      "Str → Option T_url_URL", // none = the error result is non-nil (and the *URL is nil)
-	"time.Parse":                     "Str → Str → Bool", // true = the error result is non-nil
-	"time.LoadLocation":              "Str → Bool",       // true = the error result is non-nil
-	"net.ParseCIDR":                  "Str → Bool",       // true = the error result is non-nil (and then, only then, the *IPNet is nil)
+	"url.Parse":                      "Str → Option T_url_URL",             // none = the error result is non-nil (and the *URL is nil)
+	"time.Parse":                     "Str → Str → Bool",                   // true = the error result is non-nil
+	"time.LoadLocation":              "Str → Bool",                         // true = the error result is non-nil
+	"net.ParseCIDR":                  "Str → Bool",                         // true = the error result is non-nil (and then, only then, the *IPNet is nil)
 }
 
 // foreignErrOnly: foreign callees of which translated code uses only the error result (and, at most, whether a
@@ -1818,6 +1819,20 @@ func (c *fnCtx) stmt(b *block, s ast.Stmt) {
 				}
 				unsup("interface result outside the subset")
 			}
+			if i < len(c.fi.nilPtrRes) && c.fi.nilPtrRes[i] {
+				if c.isNilExpr(r) {
+					vals = append(vals, "none")
+					continue
+				}
+				if id, ok := r.(*ast.Ident); ok {
+					if o := c.g.p.TypesInfo.Uses[id]; o != nil && (c.nilVars[o] || c.fi.optPtr[o]) {
+						vals = append(vals, c.nameOf(o))
+						continue
+					}
+				}
+				vals = append(vals, "(some "+c.expr(r).bind()+")")
+				continue
+			}
 			if _, isSlice := c.fi.results[i].Underlying().(*types.Slice); isSlice && nilSliceKey(c.fi.key) {
 				if c.isNilExpr(r) {
 					vals = append(vals, "none")
@@ -2180,22 +2195,6 @@ func (c *fnCtx) assign(b *block, x *ast.AssignStmt) {
 			}
 		}
 	}
-	// v, ok := m[k]
-	if len(x.Lhs) == 2 && len(x.Rhs) == 1 {
-		if ix, ok := x.Rhs[0].(*ast.IndexExpr); ok {
-			if mt, ok := c.typeOf(ix.X).Underlying().(*types.Map); ok {
-				m, k := c.expr(ix.X), c.expr(ix.Index)
-				if m.m || k.m {
-					unsup("partial map read")
-				}
-				get := "(mapGet " + m.s + " " + k.s + ")"
-				c.store(b, x.Lhs[0], "("+get+".getD "+c.g.zero(mt.Elem())+")")
-				c.store(b, x.Lhs[1], get+".isSome")
-				return
-			}
-		}
-		unsup("two-value assignment")
-	}
 	// a, b, c := f(args): the results of a translated function that writes through none of its parameters
 	if len(x.Lhs) >= 2 && len(x.Rhs) == 1 {
 		if call, ok := x.Rhs[0].(*ast.CallExpr); ok {
@@ -2229,6 +2228,22 @@ func (c *fnCtx) assign(b *block, x *ast.AssignStmt) {
 				return
 			}
 		}
+	}
+	// v, ok := m[k]
+	if len(x.Lhs) == 2 && len(x.Rhs) == 1 {
+		if ix, ok := x.Rhs[0].(*ast.IndexExpr); ok {
+			if mt, ok := c.typeOf(ix.X).Underlying().(*types.Map); ok {
+				m, k := c.expr(ix.X), c.expr(ix.Index)
+				if m.m || k.m {
+					unsup("partial map read")
+				}
+				get := "(mapGet " + m.s + " " + k.s + ")"
+				c.store(b, x.Lhs[0], "("+get+".getD "+c.g.zero(mt.Elem())+")")
+				c.store(b, x.Lhs[1], get+".isSome")
+				return
+			}
+		}
+		unsup("two-value assignment")
 	}
 	if len(x.Lhs) != len(x.Rhs) {
 		unsup("assignment arity")
@@ -2964,7 +2979,27 @@ func (g *fnGen) emit(fi *fnInfo, emitted map[string]bool) (text string, err stri
 			rts = append(rts, g.leanType(fi.params[i].Type()))
 		}
 	}
-	for _, r := range fi.results {
+	fi.nilPtrRes = make([]bool, len(fi.results))
+	ast.Inspect(fi.fd.Body, func(n ast.Node) bool {
+		if _, isLit := n.(*ast.FuncLit); isLit {
+			return false
+		}
+		if rs, ok := n.(*ast.ReturnStmt); ok && len(rs.Results) == len(fi.results) {
+			for i, r := range rs.Results {
+				if id, ok := r.(*ast.Ident); ok && id.Name == "nil" {
+					if _, isP := ptrToStruct(fi.results[i]); isP {
+						fi.nilPtrRes[i] = true
+					}
+				}
+			}
+		}
+		return true
+	})
+	for i, r := range fi.results {
+		if fi.nilPtrRes[i] {
+			rts = append(rts, "(Option "+g.leanType(r)+")")
+			continue
+		}
 		if _, isSlice := r.Underlying().(*types.Slice); isSlice && nilSliceKey(fi.key) {
 			rts = append(rts, "(Option "+g.leanType(r)+")")
 			continue
